@@ -1105,6 +1105,314 @@ def delta_reduce_case(ctx, use_driver=True):
                              pdata.tobytes(), fdata.tobytes()) if n >= 2 else None)
 
 
+def delta_multi_case(ctx, use_driver=True):
+    """Deltas binding 2-3 variables: evaluation at all points, and (Delta + f).reduce(op, S) /
+    Integrate(Delta, f, S) for EVERY subset S of the Delta's variables (empty, strict, full)."""
+    rng = ctx.rng
+    k = rng.choice([2, 2, 3])
+    names = ["x", "y", "z"][:k]
+    real_at = rng.randrange(k) if rng.random() < 0.35 else None
+    nb = rng.choice([0, 1, 1, 2])
+    bnames = ["i", "j"][:nb]
+    bsize = dict(zip(bnames, [rng.choice([1, 2, 3]) for _ in range(nb)]))
+    kinds, sizes, pbatch, pdata, lds = {}, {}, {}, {}, {}
+    for idx, nm in enumerate(names):
+        kinds[nm] = "int" if idx != real_at else rng.choice(["real", "vec"])
+        sizes[nm] = rng.choice([1, 2, 2, 3])
+        pbatch[nm] = [b for b in bnames if rng.random() < 0.7]
+        shp = tuple(bsize[b] for b in pbatch[nm])
+        cnt = int(np.prod(shp)) if shp else 1
+        if kinds[nm] == "int":
+            pdata[nm] = np.array([rng.randrange(sizes[nm]) for _ in range(cnt)]).reshape(shp)
+        elif kinds[nm] == "real":
+            pdata[nm] = np.array([rng.choice([0.0, 0.5, 1.0]) for _ in range(cnt)]).reshape(shp)
+        else:
+            pdata[nm] = np.array([rng.choice([0.0, 0.5, 1.0]) for _ in range(cnt * 2)]).reshape(shp + (2,))
+        u = rng.random()
+        if u < 0.6:
+            lds[nm] = ([], np.zeros(()))
+        elif u < 0.85 or not bnames:
+            lds[nm] = ([], np.array(rng.choice([-1.0, 0.5, 1.0, 2.0])))
+        else:
+            lb = [rng.choice(bnames)]
+            lds[nm] = (lb, np.array([rng.choice([-1.0, 0.0, 0.5, 1.0]) for _ in range(bsize[lb[0]])]))
+    dom = {nm: (sizes[nm] if kinds[nm] == "int" else "real") for nm in names}
+
+    def pt_tensor(nm):
+        return Tensor(pdata[nm], OrderedDict((b, Bint[bsize[b]]) for b in pbatch[nm]), dom[nm])
+
+    def ld_funsor(nm):
+        lb, arr = lds[nm]
+        return Tensor(arr.astype(np.float64), OrderedDict((b, Bint[bsize[b]]) for b in lb)) if lb else Number(float(arr))
+    which = rng.choice(["integrate", "integrate", "reduce-logaddexp", "reduce-logaddexp", "reduce-max"])
+    int_names = [nm for nm in names if kinds[nm] == "int"]
+    f_b = [b for b in bnames if rng.random() < 0.4]
+    extra = rng.random() < 0.25
+    f_inputs = [(nm, sizes[nm]) for nm in int_names] + [(b, bsize[b]) for b in f_b] + ([("u", 2)] if extra else [])
+    rng.shuffle(f_inputs)
+    fshape = tuple(v for _, v in f_inputs)
+    cnt = int(np.prod(fshape)) if fshape else 1
+    if which == "integrate":
+        lin = np.array([rng.choice(DYAD) for _ in range(cnt)]).reshape(fshape)
+        fdata = lin
+    else:
+        lin = np.array([rng.choice([0.0, 0.25, 0.5, 1.0, 2.0, 3.0]) for _ in range(cnt)]).reshape(fshape)
+        fdata = log_of(lin)
+    coef = np.array([rng.choice([0.5, 1.0, 2.0]) for _ in range(2)])
+    build = rng.choice(["joint", "joint", "sum"])
+    wit = dict(names=names, kinds=kinds, sizes=sizes, bsize=bsize, pbatch=pbatch,
+               pdata={n: v.tolist() for n, v in pdata.items()}, lds={n: (b, a.tolist()) for n, (b, a) in lds.items()},
+               which=which, f_inputs=f_inputs, fdata=fdata.tolist(), coef=coef.tolist(), build=build)
+    ctx.count(f"delta-multi:{which}:k={k}:{'mixed' if real_at is not None else 'int'}:{build}")
+    try:
+        with np.errstate(all="ignore"):
+            if build == "joint":
+                d = Delta(tuple((nm, (pt_tensor(nm), ld_funsor(nm))) for nm in names))
+            else:
+                d = Delta(names[0], pt_tensor(names[0]), ld_funsor(names[0]))
+                for nm in names[1:]:
+                    d = d + Delta(nm, pt_tensor(nm), ld_funsor(nm))
+            f = Tensor(fdata, OrderedDict((nm, Bint[v]) for nm, v in f_inputs)) if f_inputs else Tensor(fdata)
+            if real_at is not None:
+                rn = names[real_at]
+                rv = Variable(rn, Real if kinds[rn] == "real" else Reals[2])
+                f = f + ((rv * float(coef[0])) if kinds[rn] == "real" else (rv * Tensor(coef)).sum())
+    except DECLINE as e:
+        ctx.count(f"delta-multi:build-declined:{type(e).__name__}")
+        return
+    if not isinstance(d, Delta) or set(d.fresh) != set(names):
+        ctx.count("delta-multi:not-a-joint-delta")
+        return
+    border = [(b, bsize[b]) for b in bnames] + ([("u", 2)] if extra else [])
+
+    def pval(nm, env):
+        return np.asarray(pdata[nm][tuple(env[b] for b in pbatch[nm])])
+
+    def ldval(nm, env):
+        lb, arr = lds[nm]
+        return float(arr[tuple(env[b] for b in lb)]) if lb else float(arr)
+
+    def fval(env, vals):
+        base = float(fdata[tuple(({**env, **{n: int(vals[n]) for n in int_names}})[n] for n, _ in f_inputs)])
+        if real_at is not None:
+            rn = names[real_at]
+            base += float(coef[0] * vals[rn]) if kinds[rn] == "real" else float((coef * vals[rn]).sum())
+        return base
+
+    def candidates(nm):
+        if kinds[nm] == "int":
+            return [np.array(v) for v in range(sizes[nm])]
+        flat = pdata[nm].reshape((-1,) + ((2,) if kinds[nm] == "vec" else ()))
+        out = [flat[0], flat[-1], flat[0] + 0.25]
+        return out
+
+    def as_tensor(nm, v):
+        return Tensor(np.asarray(v), OrderedDict(), dom[nm])
+    benvs = [dict(zip([n for n, _ in border], idx)) for idx in itertools.product(*[range(v) for _, v in border])]
+    # 1. evaluation at all points
+    try:
+        for vals in itertools.product(*[candidates(nm) for nm in names]):
+            vd = dict(zip(names, vals))
+            with np.errstate(all="ignore"):
+                t = table(d(**{nm: as_tensor(nm, v) for nm, v in vd.items()}), border)
+            if t is None:
+                ctx.count("delta-multi:eval-lazy")
+                break
+            for env in benvs:
+                eq = all(np.array_equal(np.asarray(vd[nm], dtype=np.float64), pval(nm, env).astype(np.float64))
+                         for nm in names)
+                want = sum(ldval(nm, env) for nm in names) if eq else float("-inf")
+                got = float(t[tuple(env[n] for n, _ in border)])
+                if not (got == want or abs(got - want) <= 1e-12):
+                    w = dict(wit)
+                    w.update(values={n: np.asarray(v).tolist() for n, v in vd.items()}, at=env,
+                             problem="joint Delta evaluated at a point")
+                    ctx.fail("input", "C14.delta-multi-eval", witness=w, expected=str(want), got=str(got),
+                             python=multi_py(wit, [], "eval"))
+                    return
+    except DECLINE as e:
+        ctx.count(f"delta-multi:eval-declined:{type(e).__name__}")
+    # 2. every subset S of the Delta's variables
+    reqs, meta = [], []
+    for m in range(k + 1):
+        for S in itertools.combinations(names, m):
+            rest = [nm for nm in names if nm not in S]
+            try:
+                with np.errstate(all="ignore"):
+                    if which == "integrate":
+                        r = Integrate(d, f, frozenset(S))
+                    else:
+                        op = ops.logaddexp if which == "reduce-logaddexp" else ops.max
+                        r = (d + f).reduce(op, frozenset(S)) if S else (d + f)
+            except DECLINE as e:
+                ctx.count(f"delta-multi:{which}-declined:{type(e).__name__}")
+                continue
+            ctx.count(f"delta-multi:subset:{'empty' if not S else ('full' if not rest else 'strict')}")
+            lost = [nm for nm in rest if nm not in r.inputs]
+            kept = [nm for nm in S if nm in r.inputs]
+            if lost or kept:
+                w = dict(wit)
+                w.update(S=list(S), problem=f"inputs of the result: un-reduced Delta variables {lost} lost, reduced {kept} kept")
+                ctx.fail("input", "C14.delta-multi-inputs", witness=w, expected=str(sorted(rest)),
+                         got=str(sorted(r.inputs)), python=multi_py(wit, list(S), which))
+                return
+            unit_S = all(lds[nm][1].ndim == 0 and float(lds[nm][1]) == 0.0 for nm in S)
+            for vals in itertools.product(*[candidates(nm) for nm in rest]):
+                vd = dict(zip(rest, vals))
+                try:
+                    with np.errstate(all="ignore"):
+                        rv_ = r(**{nm: as_tensor(nm, v) for nm, v in vd.items()}) if vd else r
+                        t = table(rv_, border)
+                except DECLINE as e:
+                    ctx.count(f"delta-multi:{which}-eval-declined:{type(e).__name__}")
+                    continue
+                except KeyError as e:
+                    w = dict(wit)
+                    w.update(S=list(S), problem=f"unexpected input in the result: {e}")
+                    ctx.fail("input", "C14.delta-multi-inputs", witness=w, expected=str(border), got=str(e),
+                             python=multi_py(wit, list(S), which))
+                    return
+                if t is None:
+                    ctx.count(f"delta-multi:{which}-lazy")
+                    continue
+                for env in benvs:
+                    eq = all(np.array_equal(np.asarray(vd[nm], dtype=np.float64), pval(nm, env).astype(np.float64))
+                             for nm in rest)
+                    full = {nm: (pval(nm, env) if nm in S else np.asarray(vd[nm])) for nm in names}
+                    fv_ = fval(env, full)
+                    got = float(t[tuple(env[n] for n, _ in border)])
+                    if which == "integrate":
+                        want = math.exp(sum(ldval(nm, env) for nm in names)) * fv_ if eq else 0.0
+                        ok = abs(got - want) <= 1e-9 * max(1.0, abs(want))
+                    else:
+                        want = (sum(ldval(nm, env) for nm in rest) + fv_) if eq else float("-inf")
+                        ok = got == want or (math.isfinite(want) and abs(math.exp(got) - math.exp(want))
+                                             <= 1e-9 * max(1.0, math.exp(want)))
+                    if not ok:
+                        if unit_S:
+                            w = dict(wit)
+                            w.update(S=list(S), at=env, rest_values={n: np.asarray(v).tolist() for n, v in vd.items()},
+                                     problem=f"{which} of a joint Delta over the subset {list(S)} of its variables")
+                            ctx.fail("input", f"C14.delta-multi-{which}", witness=w, expected=str(want), got=str(got),
+                                     python=multi_py(wit, list(S), which))
+                            return
+                        ctx.count(f"delta-multi:{which}:ld!=0-differs")
+                    # Lean model / spec on the same slice (all-integer Deltas; surrogate rational weights)
+                    if real_at is None and which != "reduce-max" and use_driver and len(reqs) < 40:
+                        sz = [sizes[nm] for nm in names]
+                        ws = [Fraction(1) if ldval(nm, env) == 0.0 else Fraction(2 + j) for j, nm in enumerate(names)]
+                        flat = [Fraction(float(lin[tuple(({**env, **dict(zip(names, tt))})[n] for n, _ in f_inputs)]))
+                                for tt in itertools.product(*[range(v) for v in sz])]
+                        x = [int(vd[nm]) if nm in vd else 0 for nm in names]
+                        pt = [int(pval(nm, env)) for nm in names]
+                        mask = [nm in S for nm in names]
+                        reqs.append(f"C14 delta-subset {sx(sz)} {sx(mask)} {sx(pt)} {sx(ws)} {sx(flat)} {sx(x)}")
+                        fp = Fraction(float(lin[tuple(({**env, **dict(zip(names, [pt[j] if mask[j] else x[j] for j in range(k)]))})[n]
+                                                       for n, _ in f_inputs)]))
+                        rest_w = Fraction(1)
+                        for j in range(k):
+                            if not mask[j]:
+                                rest_w *= ws[j] if x[j] == pt[j] else 0
+                        s_w = Fraction(1)
+                        for j in range(k):
+                            if mask[j]:
+                                s_w *= ws[j]
+                        meta.append((s_w * rest_w * fp, rest_w * fp))
+    if reqs:
+        for a, (wi, wr) in zip(ctx.driver.ask(reqs), meta):
+            parts = a.split()
+            if parts[0] != "ok" or [atom_to_num(x) for x in parts[1:5]] != [wi, wi, wr, wr]:
+                ctx.infra_errors.append(f"Lean delta-subset (spec/model) disagrees with the python oracle: {a} vs {wi} {wr}")
+                return
+    ctx.case(sample={kk: wit[kk] for kk in ("names", "kinds", "sizes", "bsize", "which", "build")},
+             nontrivial_key=("delta-multi", str(wit)))
+
+
+MULTI_PY = """
+# replay for C14: a Delta binding several variables, evaluated / reduced / integrated over a subset S
+import itertools, math
+import numpy as np
+from collections import OrderedDict
+from funsor.domains import Bint, Real, Reals
+from funsor.tensor import Tensor
+from funsor.terms import Number, Variable
+from funsor.delta import Delta
+from funsor.integrate import Integrate
+import funsor.ops as ops
+inf, nan = float("inf"), float("nan")
+W = {wit!r}
+S, which = {S!r}, {which!r}
+names, kinds, sizes, bsize = W["names"], W["kinds"], W["sizes"], W["bsize"]
+dom = {{n: (sizes[n] if kinds[n] == "int" else "real") for n in names}}
+binp = lambda bs: OrderedDict((b, Bint[bsize[b]]) for b in bs)
+pt = {{n: Tensor(np.array(W["pdata"][n]), binp(W["pbatch"][n]), dom[n]) for n in names}}
+ld = {{n: (Tensor(np.array(a, dtype=np.float64), binp(b)) if b else Number(float(a))) for n, (b, a) in W["lds"].items()}}
+if W["build"] == "joint":
+    d = Delta(tuple((n, (pt[n], ld[n])) for n in names))
+else:
+    d = Delta(names[0], pt[names[0]], ld[names[0]])
+    for n in names[1:]:
+        d = d + Delta(n, pt[n], ld[n])
+fdata = np.array(W["fdata"], dtype=np.float64)
+f = Tensor(fdata, OrderedDict((n, Bint[v]) for n, v in W["f_inputs"]))
+for n in names:
+    if kinds[n] != "int":
+        v = Variable(n, Real if kinds[n] == "real" else Reals[2])
+        f = f + ((v * W["coef"][0]) if kinds[n] == "real" else (v * Tensor(np.array(W["coef"]))).sum())
+rest = [n for n in names if n not in S]
+cand = {{n: ([np.array(v) for v in range(sizes[n])] if kinds[n] == "int" else
+            [np.array(W["pdata"][n]).reshape((-1,) + ((2,) if kinds[n] == "vec" else ()))[0]]) for n in names}}
+problems = []
+with np.errstate(all="ignore"):
+    if which == "eval":
+        r, rest = d, list(names)
+    elif which == "integrate":
+        r = Integrate(d, f, frozenset(S))
+    else:
+        op = ops.logaddexp if which == "reduce-logaddexp" else ops.max
+        r = (d + f).reduce(op, frozenset(S)) if S else (d + f)
+    if [n for n in rest if n not in r.inputs] or [n for n in S if n in r.inputs]:
+        problems.append("inputs %s, expected to keep %s and drop %s" % (sorted(r.inputs), rest, S))
+    else:
+        # brute force over the reduced variables, using only point-wise evaluation of the Delta
+        for vals in itertools.product(*[cand[n] for n in rest]):
+            vd = dict(zip(rest, vals))
+            sub = {{n: Tensor(np.asarray(v), OrderedDict(), dom[n]) for n, v in vd.items()}}
+            got = r(**sub) if sub else r
+            acc = None
+            for svals in itertools.product(*[[np.asarray(x) for x in np.unique(np.array(W["pdata"][n]).reshape(
+                    (-1,) + ((2,) if kinds[n] == "vec" else ())), axis=0)] if kinds[n] != "int" else cand[n] for n in S]):
+                allv = dict(sub)
+                allv.update({{n: Tensor(np.asarray(v), OrderedDict(), dom[n]) for n, v in zip(S, svals)}})
+                dv = d(**allv)
+                if which == "eval":
+                    term = dv
+                else:
+                    unit = dv - sum((ld[n] for n in S), Number(0.0)) if which != "integrate" else dv
+                    fv = f(**{{n: v for n, v in allv.items() if n in f.inputs}})
+                    term = (unit.exp() * fv) if which == "integrate" else (unit + fv)
+                if acc is None:
+                    acc = term
+                elif which == "integrate":
+                    acc = acc + term
+                else:
+                    acc = ops.logaddexp(acc, term) if which == "reduce-logaddexp" else ops.max(acc, term)
+            if which == "eval":
+                continue
+            a_ = got if which == "integrate" else got.exp()
+            b_ = acc if which == "integrate" else acc.exp()
+            worst = ops.abs(a_ - b_).reduce(ops.max)
+            if not float(np.nan_to_num(np.asarray(worst.data, dtype=np.float64), nan=np.inf)) <= 1e-9:
+                problems.append("at %s: got %s, brute force %s" % ({{n: np.asarray(v).tolist() for n, v in vd.items()}}, got, acc))
+print("\\n".join(problems[:6]) or "joint Delta satisfies C14 on this case")
+FAILS = bool(problems)
+"""
+
+
+def multi_py(wit, S, which):
+    return MULTI_PY.format(wit=wit, S=list(S), which=which)
+
+
 def delta_streams(ctx, use_driver=True):
     rng = ctx.rng
     n = 250 if ctx.tier == "quick" else 4000
@@ -1112,6 +1420,8 @@ def delta_streams(ctx, use_driver=True):
         delta_eval_case(ctx, gen_delta_case(rng), use_driver=use_driver)
     for _ in range(n):
         delta_reduce_case(ctx, use_driver=use_driver)
+    for _ in range(150 if ctx.tier == "quick" else 2500):
+        delta_multi_case(ctx, use_driver=use_driver)
 
 
 # --------------------------------------------------------------------------------------
@@ -1379,7 +1689,10 @@ def correspond(ctx):
         "the source on every run (Gen/C14Variant.lean) and cross-checked on the live function.  Delta: integer / real / "
         "vector points given as Number, Tensor with 0-2 batch inputs, or a free variable bound afterwards; "
         "log-density 0 / number / tensor / -inf; evaluated at every value of the domain; (Delta+f) and (f+Delta) "
-        "reduced by logaddexp and max; Integrate(Delta, f).  Gaussian.sample: 0-2 integer inputs, 1-3 real inputs of "
+        "reduced by logaddexp and max; Integrate(Delta, f); Deltas binding 2-3 variables (integer, real and vector "
+        "points, each batched over a subset of 0-2 batch inputs, unit / number / tensor log-densities, built jointly or "
+        "by adding single Deltas) evaluated at all points and reduced / integrated over EVERY subset of their "
+        "variables (empty, strict, full), result inputs checked.  Gaussian.sample: 0-2 integer inputs, 1-3 real inputs of "
         "shape () / (1,) / (2,), rank dim..dim+2, full and partial sampling, eager / particle / lazy noise with "
         "numpy.random.randn stubbed.  Non-trivial = a row with >= 2 positive cells (sample), domain size >= 2 "
         "(Delta), >= 2 sampled dimensions or a conditioning block (Gaussian); distinct by full case content.")
@@ -1427,6 +1740,7 @@ def search(ctx, broken):
     for _ in range(3000):
         delta_eval_case(ctx, gen_delta_case(rng), use_driver=False)
         delta_reduce_case(ctx, use_driver=False)
+        delta_multi_case(ctx, use_driver=False)
         if found():
             return
     for _ in range(600):
